@@ -71,6 +71,25 @@ def overwrite_factory(ns):
                     cur2 = fs.files.get('md.json')
                     if is_ret(w2) and isinstance(cur2, (SBytes, bytes)) and isinstance(cur, (SBytes, bytes)):
                         obs.append(oblige(eng, 'writing the loaded value again reproduces the same bytes (fixpoint)', z3.Not(bytes_eq(it, cur, cur2)), mk))
+                    # ---- the file is replaced from outside (os.replace of a temporary file, another process): the next load follows the file
+                    fs.files['md.json'] = canon_of(it, v1)
+                    l3 = run_call(it, C.load_metadata_from_file, ['md.json'])
+                    if not is_ret(l3):
+                        structural.append('loading a file that was replaced from outside succeeds')
+                    else:
+                        obs.append(oblige(eng, 'after the file was replaced from outside, loading gives the NEW content (nothing remembered from the earlier load)', z3.Not(json_eq(it, l3[1], v1)), mk))
+                        # a value obtained from one load is not affected by what is done to the value of another load
+                        l4 = run_call(it, C.load_metadata_from_file, ['md.json'])
+                        if is_ret(l4) and isinstance(l4[1], (dict, SDict)):
+                            from pysym.models import setitem, getitem
+                            try:
+                                inner = getitem(it, Frame(it, overwrite_factory, {}, None), l4[1], 'nested')
+                                setitem(it, Frame(it, overwrite_factory, {}, None), inner, 'final', 'tampered')
+                            except Exception:
+                                inner = None
+                            l5 = run_call(it, C.load_metadata_from_file, ['md.json'])
+                            if inner is not None and is_ret(l5):
+                                obs.append(oblige(eng, 'changing (deep inside) a loaded value does not change what a later load of the unchanged file returns', z3.Not(json_eq(it, l5[1], v1)), mk))
             m = path_model(eng)
             if m is None:
                 return None
@@ -229,6 +248,29 @@ def concrete(case):
                 C.write_metadata_to_file(back, p)
                 if open(p, 'rb').read() != raw:
                     probs.append('write(load(file)) is not a fixpoint')
+                # replaced from outside (same size or not, possibly within the same clock tick): os.replace of a temporary file
+                import os
+                tmp = p + '.tmp'
+                with open(tmp, 'wb') as fo:
+                    fo.write(CC.ref_canon(v1))
+                st = os.stat(p)
+                os.replace(tmp, p)
+                try:
+                    os.utime(p, ns=(st.st_atime_ns, st.st_mtime_ns))     # a replacement within the timestamp granularity
+                except Exception:
+                    pass
+                try:
+                    back3 = C.load_metadata_from_file(p)
+                    if not _same(back3, v1):
+                        probs.append(f'after the file was replaced from outside, loading still gives {back3!r:.80} instead of {v1!r:.80}')
+                    back4 = C.load_metadata_from_file(p)
+                    if isinstance(back4, dict) and isinstance(back4.get('nested'), dict):
+                        back4['nested']['final'] = 'tampered'
+                    back5 = C.load_metadata_from_file(p)
+                    if not _same(back5, v1):
+                        probs.append(f'changing a loaded value changed what a later load of the unchanged file returns: {back5!r:.80}')
+                except Exception as e:
+                    probs.append(f'loading a replaced file raised {type(e).__name__}')
             else:
                 probs.append(f'write raised {oc["cls"]}')
         return {'outcome': oc, 'problems': probs}
